@@ -282,6 +282,10 @@ impl<A, C: Clock, F: Filter, R, S> Port<'_, Running, A, R, C, F, S> {
                 log::error!(
                     "Responses from multiple devices to peer delay request, disabling port!"
                 );
+                // Discard the exchange in flight: it was answered by more than one
+                // responder, so a late message of the first responder must not
+                // complete it (which would yield a measurement and recover the port).
+                self.peer_delay_state = PeerDelayState::Empty;
                 self.set_forced_port_state(PortState::Faulty);
                 actions![]
             }
@@ -345,6 +349,10 @@ impl<A, C: Clock, F: Filter, R, S> Port<'_, Running, A, R, C, F, S> {
                 log::error!(
                     "Responses from multiple devices to peer delay request, disabling port!"
                 );
+                // Discard the exchange in flight: it was answered by more than one
+                // responder, so a late message of the first responder must not
+                // complete it (which would yield a measurement and recover the port).
+                self.peer_delay_state = PeerDelayState::Empty;
                 self.set_forced_port_state(PortState::Faulty);
                 actions![]
             }
